@@ -166,6 +166,27 @@ class Classifier:
         """
         # We wrap the positions to to be inside the cell.
         system = input_system.copy()
+
+        # Atoms cannot be wrapped along non-periodic directions: if some of
+        # them lie outside of the cell there, the cell is enlarged (and the
+        # structure recentred) so that it contains all atoms. The search for
+        # periodic regions assumes that every atom is inside the cell.
+        pbc = system.get_pbc()
+        if not all(pbc) and system.get_volume() > 0:
+            scaled_positions = system.get_scaled_positions(wrap=False)
+            new_cell = system.get_cell()
+            scale_cell = False
+            for i in range(3):
+                if not pbc[i]:
+                    i_pos = scaled_positions[:, i]
+                    max_pos = i_pos.max()
+                    min_pos = i_pos.min()
+                    if max_pos > 1 or min_pos < 0:
+                        scale_cell = True
+                        new_cell[i, :] *= (max_pos - min_pos) + 1
+            if scale_cell:
+                system.set_cell(new_cell)
+                system.center()
         try:
             system.wrap()
         except Exception:
